@@ -100,7 +100,7 @@ pub trait BulkEvaluator { type Data: Datum; type Tape: TapeF; }
 pub trait Function {
     type Trace;
     type Storage;
-    type Workspace;
+    type Workspace: Default;
     type TapeStorage;
     type IntervalEval: TracingEvaluator<Trace = Self::Trace>;
     type FloatSliceEval: BulkEvaluator<Data = f32, Tape = FTape>;
@@ -136,6 +136,7 @@ pub enum ShapeTracingEvalError { MissingVar(u8) }
 #[derive(Debug)]
 pub enum ShapeBulkEvalError { MissingVar(u8), MismatchedVarSlices { a: u8 } }
 pub struct ShapeTracingEval<E: TracingEvaluator> { pub p: core::marker::PhantomData<E> }
+impl<E: TracingEvaluator> Default for ShapeTracingEval<E> { fn default() -> Self { ShapeTracingEval { p: core::marker::PhantomData } } }
 impl<E: TracingEvaluator> ShapeTracingEval<E> {
     /// C03 + C14 (ASSUMED here)
     #[verifier::external_body]
@@ -148,6 +149,7 @@ impl<E: TracingEvaluator> ShapeTracingEval<E> {
     { unimplemented!() }
 }
 pub struct ShapeBulkEval<E: BulkEvaluator> { pub p: core::marker::PhantomData<E> }
+impl<E: BulkEvaluator> Default for ShapeBulkEval<E> { fn default() -> Self { ShapeBulkEval { p: core::marker::PhantomData } } }
 impl<E: BulkEvaluator> ShapeBulkEval<E> {
     /// C01/C02 (values), C05 (dual numbers) + C14 (ASSUMED here): one result per sample, the evaluation of the function on that sample
     #[verifier::external_body]
